@@ -78,7 +78,11 @@ pub fn build(env: &TypeEnv, ty: Option<&Ty>, entries: &[Stage], users: &[Stage],
     if via_helper && ty.is_some() {
         src.push_str("fn use_pc() {\n    let local_copy = pc;\n}\n");
     }
+    let mut seen_stage: std::collections::BTreeMap<Stage, usize> = Default::default();
     for e in entries {
+        let k = seen_stage.entry(*e).or_insert(0);
+        *k += 1;
+        let ename = if *k == 1 { entry_name(*e).to_string() } else { format!("{}_{}", entry_name(*e), *k) };
         let body = if ty.is_some() && users.contains(e) {
             if via_helper {
                 "    if cnd { loop { use_pc(); break; } }\n".to_string()
@@ -88,7 +92,7 @@ pub fn build(env: &TypeEnv, ty: Option<&Ty>, entries: &[Stage], users: &[Stage],
         } else {
             String::new()
         };
-        src.push_str(&e.entry(entry_name(*e), &body));
+        src.push_str(&e.entry(&ename, &body));
     }
     Prog { key, src, expect, groups }
 }
@@ -204,6 +208,24 @@ pub fn space(thorough: bool) -> Vec<Prog> {
     for es in &entry_sets {
         for g in [0, 1, 2] {
             out.push(build(&env, None, es, &[], false, g, format!("none|entries={es:?}|groups={g}")));
+        }
+    }
+    // several entry points per stage (used by all entries of the using stages / by none)
+    use Stage::*;
+    for es in [vec![V, F, F], vec![C, C], vec![V, V, F, C], vec![F, F, F], vec![C, V, C, F, C], vec![V, V], vec![F, C, F, C]] {
+        for (ti, t) in tys.iter().enumerate().step_by(5) {
+            let mut distinct: Vec<Stage> = es.clone();
+            distinct.sort();
+            distinct.dedup();
+            for um in 0..(1usize << distinct.len()) {
+                let users: Vec<Stage> = distinct.iter().copied().enumerate().filter(|(i, _)| um & (1 << i) != 0).map(|(_, s)| s).collect();
+                for via in [false, true] {
+                    if via && users.is_empty() {
+                        continue;
+                    }
+                    out.push(build(&env, Some(t), &es, &users, via, 0, format!("multi-entry|ty#{ti}|entries={es:?}|users={users:?}|helper={}", via as u8)));
+                }
+            }
         }
     }
     // declared, but only reachable from a helper nobody calls: unused -> all entry stages
